@@ -368,6 +368,7 @@ pub fn run(ctx: &Ctx) -> PropResult {
         };
         judge_time_pair(rec, n1, n2, gen_offset(rng), gen_offset(rng));
     }));
+    wls.push(Workload::cases("offset_local_twins", ctx.count(3_000, 100_000), |rec, _, rng| super::localzone::twin_pair_case(rec, rng, "C03")));
     let out = run_workloads(ctx, wls);
     let mut meta = PropMeta::default();
     meta.rule = "timestamps: boundary list (range edges ±3 d ±{0,1,2,86399..86401}, 0, 0001-01-01, i64::MIN/MAX, powers of two) + stratified random i64; in range ⇒ DateTime round trip, Date floor-to-day, and the order (cmp, ==) of the value against the values of ts±1, ts±86400, 0 and the day start is the order of the timestamps (as_ymdhms / nanos_since deviations from the model are only noted: other properties own them); out of range ⇒ must panic. pairs: instants (8 strata) x delta (0, ±1 ns, sub-second, k units ± few ns, days, 2^62 ns, uniform) x two independent offsets from the whole ±86399 s range; ==, cmp, partial_cmp, <, >, reverse cmp and the sign of all nine *_since compared with the i128 model instants (inputs are used only where every read-out route agrees with the model, so that a constructor/read-out defect owned by another property skips the case instead of failing it); Date pairs (day order) and Time pairs (as_nanos order) likewise. Non-trivial = any timestamp not in the plain positive class; any pair that is not both far apart and same-offset. Distinct by input hash.".into();
